@@ -53,6 +53,13 @@ def main():
                         break
     finally:
         shutil.rmtree(d, ignore_errors=True)
+    # keep the outcomes of checks that were run against this seed earlier and are not re-run now
+    try:
+        prev = json.load(open(os.path.join(seed, "verified.json")))
+        for c, v in prev.get("checks", {}).items():
+            res["checks"].setdefault(c, v)
+    except (OSError, ValueError):
+        pass
     json.dump(res, open(os.path.join(seed, "verified.json"), "w"), indent=1)
     print(json.dumps(res, indent=1))
 
